@@ -74,6 +74,7 @@ type Op struct {
 	Commit bool   `json:"commit,omitempty"`
 	StepIn bool   `json:"step,omitempty"` // Txn: scheduling point between sub operations
 	End    int    `json:"end,omitempty"`  // Txn: how it ends (EndDefault = per Commit flag)
+	Via    bool   `json:"via,omitempty"`  // Handle/Update: through NewRoute + HandleRoute/UpdateRoute
 }
 
 // Transaction endings.
@@ -101,7 +102,11 @@ type injectedPanic struct{}
 func (o Op) String() string {
 	switch o.Kind {
 	case Handle, Update:
-		return fmt.Sprintf("%s(%s %s,v%d)", o.Kind, Keys[o.Key].Method, Keys[o.Key].Pattern, o.Ver)
+		kind := o.Kind
+		if o.Via {
+			kind = "NewRoute+" + kind + "Route"
+		}
+		return fmt.Sprintf("%s(%s %s,v%d)", kind, Keys[o.Key].Method, Keys[o.Key].Pattern, o.Ver)
 	case Txn, View:
 		parts := make([]string, len(o.Sub))
 		for i, s := range o.Sub {
@@ -185,6 +190,8 @@ type writer interface {
 	Handle(method, pattern string, h fox.HandlerFunc, opts ...fox.RouteOption) (*fox.Route, error)
 	Update(method, pattern string, h fox.HandlerFunc, opts ...fox.RouteOption) (*fox.Route, error)
 	Delete(method, pattern string) (*fox.Route, error)
+	HandleRoute(method string, route *fox.Route) error
+	UpdateRoute(method string, route *fox.Route) error
 }
 
 // Snapshot reads all keys through an Iter.
@@ -246,8 +253,18 @@ func doRead(rd reader, f *fox.Router, o Op) Out {
 	panic("bad read op " + o.Kind)
 }
 
-func doWrite(wr writer, o Op) Out {
+func doWrite(wr writer, f *fox.Router, o Op) Out {
 	k := Keys[o.Key]
+	if o.Via && o.Kind != Delete {
+		rt, err := f.NewRoute(k.Pattern, fx.VerHandler(o.Ver), fx.WithVer(o.Ver))
+		if err != nil {
+			return Out{Err: errClass(err)}
+		}
+		if o.Kind == Handle {
+			return Out{Err: errClass(wr.HandleRoute(k.Method, rt))}
+		}
+		return Out{Err: errClass(wr.UpdateRoute(k.Method, rt))}
+	}
 	switch o.Kind {
 	case Handle:
 		_, err := wr.Handle(k.Method, k.Pattern, fx.VerHandler(o.Ver), fx.WithVer(o.Ver))
@@ -281,7 +298,7 @@ func ServeKey(f *fox.Router, ki int) Out {
 func Do(f *fox.Router, o Op) Out {
 	switch o.Kind {
 	case Handle, Update, Delete:
-		return doWrite(f, o)
+		return doWrite(f, f, o)
 	case Serve:
 		return ServeKey(f, o.Key)
 	case Allow:
@@ -326,7 +343,7 @@ func Do(f *fox.Router, o Op) Out {
 				}
 				switch s.Kind {
 				case Handle, Update, Delete:
-					out.Sub = append(out.Sub, doWrite(txn, s))
+					out.Sub = append(out.Sub, doWrite(txn, f, s))
 				default:
 					out.Sub = append(out.Sub, doRead(txn, f, s))
 				}
